@@ -77,6 +77,34 @@ func (g *G) feeToken(v *view, msgs []script.Msg) string {
 		}
 		fee[d].Add(fee[d], big.NewInt(by))
 	}
+	// several fee-bearing operations: now and then pay for a proper subset of them only (the last, the first, a
+	// random subset) — an admission check that prices only some of the operations admits exactly these
+	var bearing []script.Msg
+	for _, m := range msgs {
+		if len(exactFee(v, []script.Msg{m})) > 0 {
+			bearing = append(bearing, m)
+		}
+	}
+	if len(bearing) > 1 && g.chance(25) {
+		var sub []script.Msg
+		switch g.rng.Intn(3) {
+		case 0:
+			sub = bearing[len(bearing)-1:]
+		case 1:
+			sub = bearing[:1]
+		default:
+			for _, m := range bearing {
+				if g.chance(50) {
+					sub = append(sub, m)
+				}
+			}
+			if len(sub) == 0 || len(sub) == len(bearing) {
+				sub = bearing[1:]
+			}
+		}
+		g.st.MsgsPerTx["fee-for-subset"]++
+		return coinList(exactFee(v, sub))
+	}
 	x := g.rng.Intn(100)
 	switch {
 	case x < g.w.exactPct:
